@@ -67,6 +67,7 @@ package stdlib
 //@ func stdlib.LookupFunc.Type
 //@   tags C11
 //@   spec_args stdlib.LookupFunc
+//@   ensures[C11] accepts: (=> (= result.1 nil.Any) (or (is_obj_ty (vty (val_at args 0))) (is_map_ty (vty (val_at args 0)))))
 //
 //@ func stdlib.ModuloFunc.Impl
 //@   tags C11
@@ -119,4 +120,16 @@ package stdlib
 //@ func stdlib.ValuesFunc.Type
 //@   tags C11
 //@   spec_args stdlib.ValuesFunc
+//
+// Callbacks that need the fact their Type callback establishes about the argument or the return type
+// (stated as `requires`; Function.Call runs Impl only after Type accepted the same arguments: C10).
+//@ func stdlib.LookupFunc.Impl
+//@   tags C11
+//@   spec_args stdlib.LookupFunc
+//@   requires (and (wf_ty retType) (or (is_obj_ty (vty (val_at args 0))) (is_map_ty (vty (val_at args 0)))))
+//
+//@ func stdlib.JSONDecodeFunc.Impl
+//@   tags C11
+//@   spec_args stdlib.JSONDecodeFunc
+//@   requires (and (wf_ty retType) (not (has_opt retType)))
 //
